@@ -99,6 +99,8 @@ type c02Run struct {
 	held      int   // sender whose completing barrier is being handled, -1 = not held
 	queue     []int // senders released past the gate while held
 	early     []string
+	blockedS  []int      // senders whose new call was started while held (must block on the read lock)
+	blockedK  [][]string // their event kinds
 }
 
 func (r *c02Run) addLog(s string) {
@@ -713,27 +715,68 @@ func c02Impl(c lib.Case) []string {
 				}
 				r.held, r.queue = -1, nil
 				res = finishGo(i, herr, 0, false)
+				for n, b := range r.blockedS {
+					select { // the blocked call gets the read lock now and is aligned
+					case h := <-r.hookCh[b]:
+						res += " " + classify(b, h)
+						r.inflight[b], r.rest[b] = r.blockedK[n][0], append([]string(nil), r.blockedK[n][1:]...)
+					case herr := <-r.done[b]:
+						r.status[b] = '-'
+						res += " returned:" + c02Err(herr)
+					case <-time.After(c02Wait):
+						res += " timeout"
+					}
+				}
+				r.blockedS, r.blockedK = nil, nil
 				if len(r.early) > 0 {
 					res += " " + strings.Join(r.early, " ")
 					r.early = nil
 				}
-			case len(f) == 6 && f[0] == "send" && f[2] == "ev":
-				r.mu.Lock()
-				r.keys[string(lib.UnHex(f[3]))] = true
-				r.mu.Unlock()
-				res = "consumer-held"
-				if i, err := strconv.Atoi(f[1]); err != nil || i < 0 || i >= k {
-					res = "bad-op"
-				}
-			case len(f) >= 3 && f[0] == "sendb":
-				res = "consumer-held"
-				for _, w := range f[2:] {
-					if _, _, ok := mkEvent(strings.Split(w, ":")); !ok {
-						res = "bad-op"
+			case len(f) >= 3 && (f[0] == "send" || f[0] == "sendb"):
+				// a new call while the barrier handler holds o.mu: it must block before any alignment decision
+				i, err := strconv.Atoi(f[1])
+				var batch []*workerpb.Event
+				var kinds []string
+				okItems := err == nil
+				if f[0] == "send" {
+					ev, kind, ok := mkEvent(f[2:])
+					okItems = okItems && ok
+					batch, kinds = []*workerpb.Event{ev}, []string{kind}
+				} else {
+					for _, w := range f[2:] {
+						ev, kind, ok := mkEvent(strings.Split(w, ":"))
+						okItems = okItems && ok
+						batch, kinds = append(batch, ev), append(kinds, kind)
 					}
 				}
-				if i, err := strconv.Atoi(f[1]); err != nil || i < 0 || i >= k {
+				if !okItems || i < 0 || i >= k {
 					res = "bad-op"
+					break
+				}
+				res = "consumer-held"
+				if len(r.blockedS) == 0 && r.status[i] == '-' {
+					select {
+					case r.work[i] <- batch:
+					case <-time.After(c02Wait):
+						res = "timeout"
+					}
+					if res == "timeout" {
+						break
+					}
+					r.blockedS, r.blockedK = []int{i}, [][]string{kinds}
+					r.status[i] = 'b'
+					res = "blocked"
+					select {
+					case h := <-r.hookCh[i]:
+						res = "blocked aligned-while-held:" + classify(i, h)
+						r.inflight[i], r.rest[i] = kinds[0], append([]string(nil), kinds[1:]...)
+						r.blockedS, r.blockedK = nil, nil
+					case herr := <-r.done[i]:
+						res = "blocked returned-while-held:" + c02Err(herr)
+						r.status[i] = '-'
+						r.blockedS, r.blockedK = nil, nil
+					case <-time.After(20 * time.Millisecond):
+					}
 				}
 			default:
 				res = "consumer-held"
@@ -1268,7 +1311,18 @@ func c02Schedule(r *lib.Rng, k int, scripts [][]string) []string {
 					}
 				}
 				if r.Chance(1, 3) {
-					ops = append(ops, lib.Pick(r, []string{"state", "tick", "send 0 ev 61 252 0", "redeploy"})) // all refused
+					ops = append(ops, lib.Pick(r, []string{"state", "tick", "redeploy"})) // all refused
+				}
+				blockedSender := -1
+				if r.Chance(1, 2) {
+					// a new call during the hold: blocks on the read lock, is aligned after the handler returned
+					for j := 0; j < k; j++ {
+						if j != ch.i && sim.status[j] == '-' && sim.pos[j] < len(scripts[j]) {
+							blockedSender = j
+							ops = append(ops, fmt.Sprintf("send %d %s", j, scripts[j][sim.pos[j]]))
+							break
+						}
+					}
 				}
 				x := -1
 				if len(cand) > 0 && r.Chance(4, 5) {
@@ -1282,6 +1336,10 @@ func c02Schedule(r *lib.Rng, k int, scripts [][]string) []string {
 				sim.run(ch.i)
 				if x >= 0 {
 					sim.run(x)
+				}
+				if blockedSender >= 0 {
+					sim.batch[blockedSender] = 0
+					sim.send(blockedSender)
 				}
 				break
 			}
@@ -1439,6 +1497,11 @@ func propC02() *lib.Prop {
 				// must wait for the consumer and stay out of checkpoint 1 (seeded change C02-4)
 				c02Case(2, 3, "send 0 ev 61 1 0", "go 0", "send 0 bar 1", "go 0", "send 0 ev 61 9 0", "send 1 bar 1", "gohold 1", "state", "go 0", "go 0",
 					"resume", "state", "tick", "send 0 bar 2", "go 0", "send 1 bar 2", "gohold 1", "resume", "state"),
+				// a call started while the barrier handler holds o.mu blocks before its alignment decision
+				c02Case(2, 3, "send 0 ev 61 1 0", "go 0", "send 0 bar 1", "go 0", "send 1 bar 1", "gohold 1", "sendb 0 ev:61:9:0 bar:2", "send 0 ev 61 8 0",
+					"state", "resume", "state", "go 0", "go 0", "state"),
+				// D45 witness of Props/C02 `epoch_cut_counterexample`: a batched event survives the redeploy into checkpoint 1
+				c02Case(2, 3, "send 0 ev 61 7 0", "go 0", "redeploy", "send 0 bar 1", "go 0", "send 1 bar 1", "go 1", "state"),
 				// same with a sender that was already at the gate and a watermark that would fire a timer
 				c02Case(2, 2, "send 0 ev 61 1 5", "go 0", "send 0 wm 9", "go 0", "send 0 bar 1", "go 0", "send 1 wm 9", "send 1 bar 1", "go 1", "send 1 bar 1",
 					"gohold 1", "go 1", "resume", "state"),
